@@ -630,13 +630,20 @@ func (s *Server) prepareTLS(proxyConfig *proxy.Config) (err error) {
 
 	if s.conf.TLSConf.StrictSNICheck {
 		if len(cert.DNSNames) != 0 {
-			s.dnsNames = cert.DNSNames
+			s.dnsNames = slices.Clone(cert.DNSNames)
 			log.Debug("dns: using certificate's SAN as DNS names: %v", cert.DNSNames)
-			slices.Sort(s.dnsNames)
 		} else {
 			s.dnsNames = []string{cert.Subject.CommonName}
 			log.Debug("dns: using certificate's CN as DNS name: %s", cert.Subject.CommonName)
 		}
+
+		// Host names are case-insensitive, so compare them in lower case, see
+		// [anyNameMatches].
+		for i, n := range s.dnsNames {
+			s.dnsNames[i] = toLowerASCII(n)
+		}
+
+		slices.Sort(s.dnsNames)
 	}
 
 	proxyConfig.TLSConfig = &tls.Config{
@@ -660,12 +667,16 @@ func matchesDomainWildcard(host, pat string) (ok bool) {
 }
 
 // anyNameMatches returns true if sni, the client's SNI value, matches any of
-// the DNS names and patterns from certificate.  dnsNames must be sorted.
+// the DNS names and patterns from certificate.  dnsNames must be sorted and in
+// lower case.  sni is matched case-insensitively, since neither the TLS
+// implementation nor the clients normalize it.
 func anyNameMatches(dnsNames []string, sni string) (ok bool) {
 	// Check sni is either a valid hostname or a valid IP address.
 	if !netutil.IsValidHostname(sni) && !netutil.IsValidIPString(sni) {
 		return false
 	}
+
+	sni = toLowerASCII(sni)
 
 	if _, ok = slices.BinarySearch(dnsNames, sni); ok {
 		return true
